@@ -1,8 +1,11 @@
 (** C15 — executable model of the breeding-value matrices
     pybrops/popgen/bvmat/DenseBreedingValueMatrix.py (+ the Estimated / GenomicEstimated subclasses, which only
-    change the constructor signature), of the taxa-axis operations they inherit from
-    pybrops/core/mat/DenseTaxaMatrix.py (append_taxa / incorp_taxa / remove_taxa, in place) and
-    pybrops/core/mat/DenseTaxaTraitMatrix.py (concat_taxa), and of pybrops/core/mat/DenseScaledMatrix.py.
+    change the constructor signature): from_numpy, unscale, the statistics, the copy-on-manipulation taxa operations,
+    the in-place append_taxa / incorp_taxa / remove_taxa and concat_taxa (overrides that apply the routines inherited from
+    pybrops/core/mat/DenseTaxaMatrix.py / DenseTaxaTraitMatrix.py to the unscaled values and re-standardise),
+    and of pybrops/core/mat/DenseScaledMatrix.py.
+    The last section keeps the FORMER code of tmean and of the in-place operations / concat_taxa ([old_c_mean], [old_step]):
+    it is not what the library does any more; the refutations proved about it are regression witnesses.
 
     Numbers are exact rationals; a missing value (NaN) is [None] and propagates through arithmetic.
     A matrix is kept column-major (one [tcol] per trait: its stored values, location, scale), because every
@@ -107,8 +110,9 @@ Definition c_range (u : bool) (c : tcol) : option oq :=
   | Some mx, Some mn => let r := osub mx mn in Some (if u then omul r (csc c) else r)
   | _, _ => None
   end.
-(** tmean:  location if unscale else mat.mean(0) *)
-Definition c_mean (u : bool) (c : tcol) : option oq := Some (if u then cloc c else np_mean (cdat c)).
+(** tmean:  out = mat.mean(0); if unscale: out *= scale; out += location *)
+Definition c_mean (u : bool) (c : tcol) : option oq :=
+  Some (let m := np_mean (cdat c) in if u then oadd (omul m (csc c)) (cloc c) else m).
 (** tvar:  out = mat.var(0); if unscale: out *= scale**2.   tstd is  mat.std(0) [* scale]: its square is the same value *)
 Definition c_var (u : bool) (c : tcol) : option oq :=
   Some (let v := np_var (cdat c) in if u then omul v (omul (csc c) (csc c)) else v).
@@ -243,10 +247,11 @@ Inductive op :=
 | ODelete (o : idx)
 | OInsert (o : idx) (v : operand)
 | OAdjoin (v : operand)
-| ORemove (o : idx)                      (* in place, DenseTaxaMatrix.remove_taxa *)
-| OAppend (v : operand)                  (* in place, DenseTaxaMatrix.append_taxa *)
-| OIncorp (o : idx) (v : operand)        (* in place, DenseTaxaMatrix.incorp_taxa *)
-| OConcat (base_class : bool) (before after : list part).   (* cls.concat_taxa(before ++ [self] ++ after) *)
+| ORemove (o : idx)                      (* in place, remove_taxa *)
+| OAppend (v : operand)                  (* in place, append_taxa *)
+| OIncorp (o : idx) (v : operand)        (* in place, incorp_taxa *)
+| OConcat (all_inst : bool) (before after : list part).
+    (* cls.concat_taxa(before ++ [self] ++ after); all_inst: every matrix is an instance of cls (else TypeError) *)
 
 Definition app_opt {A} (a b : list A) : option (list A) := Some (a ++ b).
 Definition operand_usable (o : operand) : bool := match o_bv o with Some _ => o_isinst o | None => true end.
@@ -266,10 +271,24 @@ Fixpoint concat_cols (t : nat) (ms : list (list (list oq))) : list (list oq) :=
 Definition chk (r : rawst) : option rawst :=
   if label_len_ok (r_n r) (r_taxa r) && label_len_ok (r_n r) (r_grp r) then Some r else None.
 
-(** ** raw-level effect of the copy-on-manipulation operations (select/delete/insert/adjoin) and of remove:
-       the list operation applied to every raw column and to the labels.  [vals] says which values an operand contributes:
-       the specification uses the operand's raw values, the model of the source what [values.unscale()] computes. *)
-Definition raw_step (vals : operand -> list (list oq)) (r : rawst) (o : op) : option rawst :=
+(** concat_taxa on matrices given as (columns, number of taxa, taxa, taxa_grp): equal trait counts, labels joined
+    (missing taxa filled with None, taxa_grp needed for all or none), values concatenated, constructor checks *)
+Definition cmat := (list (list oq) * nat * option (list Z) * option (list Z))%type.
+Definition concat_raw (t : nat) (ms : list cmat) : option rawst :=
+  if forallb (fun m : cmat => Nat.eqb (length (fst (fst (fst m)))) t) ms then
+    match concat_labels (map (fun m : cmat => (snd (fst (fst m)), snd (fst m))) ms) true,
+          concat_labels (map (fun m : cmat => (snd (fst (fst m)), snd m)) ms) false with
+    | Some tx, Some gp => chk (mkraw (concat_cols t (map (fun m : cmat => fst (fst (fst m))) ms))
+                                     (fold_right Nat.add 0%nat (map (fun m : cmat => snd (fst (fst m))) ms)) tx gp)
+    | _, _ => None end
+  else None.
+
+(** ** raw-level effect of every taxa-axis operation: the list operation applied to every raw column and to the labels.
+       [vals] / [pvals] say which values an operand / a matrix handed to concat_taxa contributes: the specification uses
+       their raw values, the model of the source what [values.unscale()] / [m.unscale()] computes.
+       The copy-on-manipulation operations and concat_taxa build the result through the constructor (label-length checks, [chk]);
+       the in-place operations assign the label arrays directly. *)
+Definition raw_step (vals : operand -> list (list oq)) (pvals : part -> list (list oq)) (r : rawst) (o : op) : option rawst :=
   match o with
   | OSelect ix =>
       match map_cols (fun c => take_l c ix) (r_cols r), olabels (fun l => take_l l ix) (r_taxa r), olabels (fun l => take_l l ix) (r_grp r), new_n (fun l => take_l l ix) (r_n r) with
@@ -288,7 +307,6 @@ Definition raw_step (vals : operand -> list (list oq)) (r : rawst) (o : op) : op
         match map2_cols app_opt (r_cols r) (vals v), copy_labels (r_taxa r) (r_grp r) v app_opt with
         | Some c, Some (t, g) => chk (mkraw c (r_n r + o_k v) t g) | _, _ => None end
       else None
-  (* what the property demands of the in-place operations and of concat_taxa: the same list operations on raw values *)
   | OIncorp ob v =>
       if operand_usable v then
         match map2_cols (fun c x => insert_any c ob x) (r_cols r) (vals v), inplace_labels (r_taxa r) (r_grp r) v (fun a b => insert_any a ob b),
@@ -300,76 +318,42 @@ Definition raw_step (vals : operand -> list (list oq)) (r : rawst) (o : op) : op
         match map2_cols app_opt (r_cols r) (vals v), inplace_labels (r_taxa r) (r_grp r) v app_opt with
         | Some c, Some (t, g) => Some (mkraw c (r_n r + o_k v) t g) | _, _ => None end
       else None
-  | OConcat _ before after =>
-      let ms := map (fun q => (p_cols q, p_n q, p_taxa q, p_grp q)) before ++ [(r_cols r, r_n r, r_taxa r, r_grp r)]
-                ++ map (fun q => (p_cols q, p_n q, p_taxa q, p_grp q)) after in
-      let t := length (r_cols r) in
-      if forallb (fun m => Nat.eqb (length (fst (fst (fst m)))) t) ms then
-        match concat_labels (map (fun m => (snd (fst (fst m)), snd (fst m))) ms) true,
-              concat_labels (map (fun m => (snd (fst (fst m)), snd m)) ms) false with
-        | Some tx, Some gp => Some (mkraw (concat_cols t (map (fun m => fst (fst (fst m))) ms))
-                                          (fold_right Nat.add 0%nat (map (fun m => snd (fst (fst m))) ms)) tx gp)
-        | _, _ => None end
+  | OConcat all_inst before after =>
+      if all_inst then
+        concat_raw (length (r_cols r))
+          (map (fun q => (pvals q, p_n q, p_taxa q, p_grp q)) before ++ [(r_cols r, r_n r, r_taxa r, r_grp r)]
+           ++ map (fun q => (pvals q, p_n q, p_taxa q, p_grp q)) after)
       else None
   end.
 
-(** one operation of the source; [p] = the location/scale the implementation produced for the result (used by from_numpy) *)
+(** m.unscale() of a matrix handed to concat_taxa *)
+Definition part_unscaled (q : part) : list (list oq) := map col_unscale (part_cols q).
+(** re-standardisation of raw values: from_numpy(mat) with the location/scale the implementation produced;
+    the labels were either checked by the constructor ([chk] inside [raw_step]) or assigned in place *)
+Definition restd (r : rawst) (p : list prm) : option bv :=
+  if Nat.eqb (length (r_cols r)) (length p)
+  then Some (mkbv (map2 (fun c lp => col_from_numpy c (fst lp) (snd lp)) (r_cols r) p) (r_n r) (r_taxa r) (r_grp r))
+  else None.
+(** one operation of the source; [p] = the location/scale the implementation produced for the result.
+    Every operation has the same shape: unscale self (and a matrix operand / the other matrices), apply the numpy list
+    operation to the unscaled values and the labels, re-standardise.
+    select/delete/insert/adjoin:  cls.from_numpy(numpy.xxx(self.unscale(), ...), taxa, taxa_grp);
+    remove/append/incorp:  self._mat = self.unscale(); DenseTaxaMatrix.xxx_taxa(self, ...); self._restandardize(self._mat);
+    concat:  out = DenseTaxaMatrix.concat_taxa(mats, location = 0, scale = 1); out._restandardize(concatenate(m.unscale())) *)
 Definition step (b : bv) (o : op) (p : list prm) : option bv :=
-  match o with
-  | OSelect _ | ODelete _ | OInsert _ _ | OAdjoin _ =>
-      match raw_step opd_unscaled (unscale b) o with Some r => from_numpy r p | None => None end
-  | ORemove ob =>
-      (* self._mat = numpy.delete(self._mat, obj); location and scale untouched *)
-      match map_cols (fun c => delete_any c ob) (map cdat (bcols b)), olabels (fun l => delete_any l ob) (btaxa b), olabels (fun l => delete_any l ob) (bgrp b),
-            new_n (fun l => delete_any l ob) (bn b) with
-      | Some c, Some t, Some g, Some n => Some (mkbv (map2 (fun d old => mkcol d (cloc old) (csc old)) c (bcols b)) n t g)
-      | _, _, _, _ => None end
-  | OAppend v =>
-      if operand_usable v then
-        match map2_cols app_opt (map cdat (bcols b)) (opd_stored v), inplace_labels (btaxa b) (bgrp b) v app_opt with
-        | Some c, Some (t, g) => Some (mkbv (map2 (fun d old => mkcol d (cloc old) (csc old)) c (bcols b)) (bn b + o_k v) t g)
-        | _, _ => None end
-      else None
-  | OIncorp ob v =>
-      if operand_usable v then
-        match map2_cols (fun c x => insert_any c ob x) (map cdat (bcols b)) (opd_stored v), inplace_labels (btaxa b) (bgrp b) v (fun a b => insert_any a ob b),
-              new_n (fun l => insert_any l ob (repeat tt (o_k v))) (bn b) with
-        | Some c, Some (t, g), Some n => Some (mkbv (map2 (fun d old => mkcol d (cloc old) (csc old)) c (bcols b)) n t g)
-        | _, _, _ => None end
-      else None
-  | OConcat base before after =>
-      (* cls(mat = concatenate([m.mat ...]), taxa, taxa_grp, trait): location 0.0, scale 1.0 for the base class;
-         the subclasses' constructors require location and scale: TypeError *)
-      if base then
-        let ms := map (fun q => (map cdat (part_cols q), p_n q, p_taxa q, p_grp q)) before
-                  ++ [(map cdat (bcols b), bn b, btaxa b, bgrp b)]
-                  ++ map (fun q => (map cdat (part_cols q), p_n q, p_taxa q, p_grp q)) after in
-        let t := length (bcols b) in
-        if forallb (fun m => Nat.eqb (length (fst (fst (fst m)))) t) ms then
-          match concat_labels (map (fun m => (snd (fst (fst m)), snd (fst m))) ms) true,
-                concat_labels (map (fun m => (snd (fst (fst m)), snd m)) ms) false with
-          | Some tx, Some gp =>
-              Some (mkbv (map zero_one (concat_cols t (map (fun m => fst (fst (fst m))) ms)))
-                         (fold_right Nat.add 0%nat (map (fun m => snd (fst (fst m))) ms)) tx gp)
-          | _, _ => None end
-        else None
-      else None
-  end.
+  match raw_step opd_unscaled part_unscaled (unscale b) o with Some r => restd r p | None => None end.
 
 (** the given parameters of a from_numpy-based step are acceptable for the raw matrix it is applied to *)
 Definition op_operand (o : op) : option operand :=
   match o with OInsert _ v | OAdjoin v | OAppend v | OIncorp _ v => Some v | _ => None end.
+Definition op_parts (o : op) : list part := match o with OConcat _ before after => before ++ after | _ => [] end.
 Definition step_ok (b : bv) (o : op) (p : list prm) : bool :=
   match op_operand o with Some v => opd_params_ok v | None => true end &&
-  match o with
-  | OSelect _ | ODelete _ | OInsert _ _ | OAdjoin _ =>
-      match raw_step opd_unscaled (unscale b) o with Some r => params_ok (r_cols r) p | None => true end
-  | OConcat _ before after => forallb (fun q => params_ok (p_cols q) (p_prm q)) (before ++ after)
-  | _ => true
-  end.
+  forallb (fun q => params_ok (p_cols q) (p_prm q)) (op_parts o) &&
+  match raw_step opd_unscaled part_unscaled (unscale b) o with Some r => params_ok (r_cols r) p | None => true end.
 
 (** specification of a history at the raw level: failing operations leave the state unchanged *)
-Definition spec_step (r : rawst) (o : op) : rawst := match raw_step opd_raw r o with Some r' => r' | None => r end.
+Definition spec_step (r : rawst) (o : op) : rawst := match raw_step opd_raw p_cols r o with Some r' => r' | None => r end.
 Definition run_spec (r : rawst) (ops : list op) : rawst := fold_left spec_step ops r.
 Fixpoint run (b : bv) (ops : list (op * list prm)) : bv :=
   match ops with [] => b | (o, p) :: t => run (match step b o p with Some b' => b' | None => b end) t end.
@@ -459,6 +443,11 @@ Definition case_check (r : rawst) (p : list prm) (s0 : obs) (l : list (op * list
   | _, _ => false
   end.
 
+(** a matrix built by the constructor from stored values with given location / scale (nothing is standardised): the statistics,
+    unscale() and every later operation must agree all the same *)
+Definition case_check_direct (b : bv) (s0 : obs) (l : list (op * list prm * obs)) : bool :=
+  match s0 with ObsOk s => agree_state true b s && run_check b l | ObsErr => false end.
+
 (** DenseScaledMatrix histories *)
 Inductive sop :=
 | STransform (m : list (list oq)) | SUntransform (m : list (list oq))
@@ -480,4 +469,50 @@ Fixpoint srun_check (cs : list tcol) (l : list (sop * (list (list oq) * (list (l
   | (o, (ret, (mat, (loc, sc)))) :: t =>
       let '(cs', r) := sstep cs o in
       sstep_ok cs o && ocl_ll ret r && sagree cs' mat loc sc && srun_check cs' t
+  end.
+
+(** * FORMER code (before the repairs 6f07c8f2, 9b536cae, 22175af7) — regression witnesses only, not used by the correspondence *)
+(** tmean:  location if unscale else mat.mean(0) *)
+Definition old_c_mean (u : bool) (c : tcol) : option oq := Some (if u then cloc c else np_mean (cdat c)).
+(** the in-place operations and concat_taxa as inherited from DenseTaxaMatrix: they edit / glue the stored values;
+    the flag of [OConcat] meant "cls is the base class and every matrix is an instance" *)
+Definition old_step (b : bv) (o : op) (p : list prm) : option bv :=
+  match o with
+  | OSelect _ | ODelete _ | OInsert _ _ | OAdjoin _ => step b o p
+  | ORemove ob =>
+      (* self._mat = numpy.delete(self._mat, obj); location and scale untouched *)
+      match map_cols (fun c => delete_any c ob) (map cdat (bcols b)), olabels (fun l => delete_any l ob) (btaxa b), olabels (fun l => delete_any l ob) (bgrp b),
+            new_n (fun l => delete_any l ob) (bn b) with
+      | Some c, Some t, Some g, Some n => Some (mkbv (map2 (fun d old => mkcol d (cloc old) (csc old)) c (bcols b)) n t g)
+      | _, _, _, _ => None end
+  | OAppend v =>
+      if operand_usable v then
+        match map2_cols app_opt (map cdat (bcols b)) (opd_stored v), inplace_labels (btaxa b) (bgrp b) v app_opt with
+        | Some c, Some (t, g) => Some (mkbv (map2 (fun d old => mkcol d (cloc old) (csc old)) c (bcols b)) (bn b + o_k v) t g)
+        | _, _ => None end
+      else None
+  | OIncorp ob v =>
+      if operand_usable v then
+        match map2_cols (fun c x => insert_any c ob x) (map cdat (bcols b)) (opd_stored v), inplace_labels (btaxa b) (bgrp b) v (fun a b => insert_any a ob b),
+              new_n (fun l => insert_any l ob (repeat tt (o_k v))) (bn b) with
+        | Some c, Some (t, g), Some n => Some (mkbv (map2 (fun d old => mkcol d (cloc old) (csc old)) c (bcols b)) n t g)
+        | _, _, _ => None end
+      else None
+  | OConcat base before after =>
+      (* cls(mat = concatenate([m.mat ...]), taxa, taxa_grp, trait): location 0.0, scale 1.0 for the base class;
+         the subclasses' constructors require location and scale: TypeError *)
+      if base then
+        let ms := map (fun q => (map cdat (part_cols q), p_n q, p_taxa q, p_grp q)) before
+                  ++ [(map cdat (bcols b), bn b, btaxa b, bgrp b)]
+                  ++ map (fun q => (map cdat (part_cols q), p_n q, p_taxa q, p_grp q)) after in
+        let t := length (bcols b) in
+        if forallb (fun m => Nat.eqb (length (fst (fst (fst m)))) t) ms then
+          match concat_labels (map (fun m => (snd (fst (fst m)), snd (fst m))) ms) true,
+                concat_labels (map (fun m => (snd (fst (fst m)), snd m)) ms) false with
+          | Some tx, Some gp =>
+              Some (mkbv (map zero_one (concat_cols t (map (fun m => fst (fst (fst m))) ms)))
+                         (fold_right Nat.add 0%nat (map (fun m => snd (fst (fst m))) ms)) tx gp)
+          | _, _ => None end
+        else None
+      else None
   end.
